@@ -1,73 +1,218 @@
 /-
-  Proof/Cond.lean — invariants of the condition-variable model (property C05).
-
-  Layout:
-   1. what C05 needs from the mutex model (`Mutex.step`), proved here from the model alone:
-      frame lemmas and the small invariant `MI` (whoever is between acquire and release is the
-      ghost owner; a waker before its pop sees a free mutex; at most one such waker).
-   2. shape lemmas: what `stepI`, `stepM`, `toUnlockI`, `finishOne`, `retireD` can change.
-   3. the invariants, one structure per concern, each with its preservation theorem.
+  Proof/Cond.lean — preservation of `Cond.Inv` by every step of the condition-variable model
+  (property C05), and the facts `Props/C05.lean` is assembled from.
 -/
-import LibfiberVerif.Model.Cond
+import LibfiberVerif.Proof.CondInv
 
 namespace LibfiberVerif.Cond
 
-/-! ### 1. the mutex model -/
+local macro "inv_frame" hi:ident : tactic =>
+  `(tactic| (refine ⟨?_, ?_, ?_, ?_, ?_, ?_, ?_, ?_, ?_, ?_, ?_, ?_, ?_⟩ <;>
+      first | exact ($hi).mi | exact ($hi).mim | exact ($hi).holdI | exact ($hi).cnt
+            | exact ($hi).missPc | exact ($hi).missEx | exact ($hi).pops | exact ($hi).hdLe
+            | exact ($hi).owedPc | exact ($hi).owedEx | exact ($hi).ordReg | exact ($hi).dh
+            | exact ($hi).loc | skip))
 
-def mxActor : Mutex.Ev → Nat
-  | .callLock f | .retLock f | .callTry f | .retTry f _ | .callUnlock f | .retUnlock f
-  | .csEnter f | .csExit f _ | .fsub f _ | .fadd f _ | .casCounter f _ _ | .wState f _ _
-  | .rState f _ _ | .rNode f _ _ | .wNode f _ _ | .wData f _ _ | .rData f _ _ | .wNext f _ _
-  | .xchgTail f _ _ | .rHead f _ | .rNext f _ _ | .wHead f _ => f
+local macro "side" : tactic =>
+  `(tactic| first
+      | (simp_all [needsI, prePop, Loc]; done)
+      | (simp_all [needsI, prePop, Loc]; omega))
 
-/-- a mutex step changes only the acting fiber's pc -/
-theorem mx_pc_other {x x' : Mutex.St} {e : Mutex.Ev} (h : Mutex.step x e = some x')
-    {b : Nat} (hb : b ≠ mxActor e) : x'.pc b = x.pc b := by
-  cases e <;> simp only [Mutex.step, mxActor] at h hb <;> (repeat' split at h) <;>
-    simp at h <;> (try subst h) <;> simp [upd, hb]
+/-- fields the invariant does not read may change freely -/
+theorem Inv.congr {s s' : St} (hi : Inv s) (hm : s'.m = s.m) (hI : s'.i = s.i)
+    (h1 : s'.count = s.count) (h2 : s'.miss = s.miss) (h3 : s'.nreg = s.nreg)
+    (h4 : s'.nclaim = s.nclaim) (h5 : s'.hd = s.hd) (h6 : s'.owed = s.owed)
+    (h7 : s'.order = s.order) (h8 : s'.pc = s.pc) (h9 : s'.gh = s.gh) : Inv s' := by
+  obtain ⟨a1, a2, a3, a4, a5, a6, a7, a8, a9, a10, a11, a12, a13⟩ := hi
+  refine ⟨?_, ?_, ?_, ?_, ?_, ?_, ?_, ?_, ?_, ?_, ?_, ?_, ?_⟩ <;>
+    simp only [hm, hI, h1, h2, h3, h4, h5, h6, h7, h8, h9] <;> assumption
 
-def isHolder : Mutex.Pc → Bool
-  | .acquired | .held | .tryDone true | .unlockCalled => true
-  | _ => false
+theorem ctx_i {s : St} {f : Nat} (h : ctxOf s f = .i) : needsI (s.pc f) = false := by
+  simp only [ctxOf] at h
+  split at h
+  · cases h
+  · split at h <;> simp_all [needsI]
 
-def isWaker : Mutex.Pc → Bool
-  | .wakeLoop | .popGotHead _ | .popGotNext _ _ => true
-  | _ => false
+theorem retireD_shape {s s' : St} {g w : Nat} (h : retireD s g w = some s') :
+    (∃ x o, Mutex.step (syncIn s s.m) (.retUnlock (D w)) = some x ∧
+        s' = { s with m := x, fnode := x.fnode, ndata := x.ndata, onBehalf := o }) ∨
+    (s.m.pc (D w) ≠ .unlockDone ∧ ∃ o, s' = { s with onBehalf := o }) := by
+  simp only [retireD] at h
+  split at h
+  · simp only [Option.map_eq_some_iff] at h
+    obtain ⟨s1, h1, rfl⟩ := h
+    obtain ⟨x, hx, rfl⟩ := stepM_shape h1
+    exact Or.inl ⟨x, _, hx, rfl⟩
+  · next hne => simp at h; subst h; exact Or.inr ⟨hne, _, rfl⟩
 
-/-- the part of the mutex invariant C05 relies on -/
-structure MI (x : Mutex.St) : Prop where
-  le1 : x.counter ≤ 1
-  own_le : x.owner ≠ none → x.counter ≤ 0
-  holder : ∀ f, isHolder (x.pc f) = true → x.owner = some f
-  waker : ∀ f, isWaker (x.pc f) = true → x.owner = none ∧ x.counter ≤ 0
-  waker1 : ∀ f g, isWaker (x.pc f) = true → isWaker (x.pc g) = true → f = g
+theorem Inv.retireD {s s' : St} (hi : Inv s) {g w : Nat} (h : retireD s g w = some s') :
+    Inv s' ∧ s'.gh = s.gh ∧ (s.m.pc (D w) ≠ .held → s'.m.pc (D w) ≠ .held) := by
+  rcases retireD_shape h with ⟨x, o, hx, rfl⟩ | ⟨_, o, rfl⟩
+  · refine ⟨(hi.of_stepM hx (fun w => ⟨by simp, by simp⟩)).congr rfl rfl rfl rfl rfl rfl rfl rfl rfl rfl rfl,
+      rfl, fun _ => ?_⟩
+    show x.pc (D w) ≠ .held
+    rw [(mx_retUnlock hx).2]; simp
+  · exact ⟨hi.congr rfl rfl rfl rfl rfl rfl rfl rfl rfl rfl rfl, rfl, fun h => h⟩
 
-theorem MI.init (stub : Nat) (nodeOf : Nat → Nat) : MI (Mutex.init stub nodeOf) := by
-  constructor <;> simp [Mutex.init, isHolder, isWaker]
+theorem Inv.dispatch {s s' : St} (hi : Inv s) {e : Ev} (h : dispatch s e = some s') : Inv s' := by
+  simp only [Cond.dispatch] at h
+  split at h
+  · split at h
+    · exact hi.stepC h
+    · cases h
+  · next hc =>
+    split at h
+    · simp only [Option.bind_eq_some_iff] at h
+      obtain ⟨me, hme, h⟩ := h
+      obtain ⟨x, hx, rfl⟩ := stepI_shape h
+      exact hi.of_stepI hx (toMx_props hme).1 (ctx_i hc)
+    · cases h
+  · split at h
+    · simp only [Option.bind_eq_some_iff] at h
+      obtain ⟨me, hme, h⟩ := h
+      obtain ⟨x, hx, rfl⟩ := stepM_shape h
+      have hp := toMx_props hme
+      exact hi.of_stepM hx (fun w => ⟨hp.2.1 _, hp.2.2 _ _⟩)
+    · cases h
+  · split at h
+    · simp only [Option.bind_eq_some_iff] at h
+      obtain ⟨s1, ⟨me, hme, h1⟩, h⟩ := h
+      obtain ⟨x, hx, rfl⟩ := stepM_shape h1
+      have hp := toMx_props hme
+      exact ((hi.of_stepM hx (fun w => ⟨hp.2.1 _, hp.2.2 _ _⟩)).retireD h).1
+    · cases h
+  · cases h
 
-theorem MI.sync {s : St} {x : Mutex.St} (h : MI x) : MI (syncIn s x) := by
-  obtain ⟨a, b, c, d, e⟩ := h
-  exact ⟨a, b, c, d, e⟩
+/-- `Inv.move` with both mutexes, the queue and the global counters untouched -/
+theorem Inv.gmove {s s' : St} (hi : Inv s) {f : Nat} {p' : Pc} {g' : G}
+    (hm : s'.m = s.m) (hI : s'.i = s.i) (h1 : s'.count = s.count) (h2 : s'.miss = s.miss)
+    (h3 : s'.nreg = s.nreg) (h4 : s'.nclaim = s.nclaim) (h5 : s'.hd = s.hd) (h6 : s'.owed = s.owed)
+    (h7 : s'.order = s.order) (hpc : s'.pc = upd s.pc f p') (hgh : s'.gh = upd s.gh f g')
+    (hHold : needsI p' = true → s.i.pc (A f) = .held)
+    (hMissPc : p' = .sigMiss → s.miss = 1)
+    (hMissEx : s.miss ≠ 0 → s.pc f = .sigMiss → p' = .sigMiss)
+    (hOwedPc : ∀ bc k w, p' = .wake bc k w → s.owed = k ∧ (prePop w = true → 1 ≤ k))
+    (hOwedEx : s.owed ≠ 0 → (∃ bc k w, s.pc f = .wake bc k w) → ∃ bc k w, p' = .wake bc k w)
+    (hLoc : Loc p' g')
+    (hnC : (s.gh f).nC ≤ g'.nC) (hU : g'.nU = (s.gh f).nU) (hL : (s.gh f).nL ≤ g'.nL) : Inv s' :=
+  hi.move (hm ▸ hi.mim) (fun w hw => Or.inl (hm ▸ hw)) (hI ▸ hi.mi) (fun g _ => by rw [hI])
+    (by rw [h1, h2, h3, h4]; exact hi.cnt) h2 h4 h5 h6 (fun n g hg => Or.inl (h7 ▸ hg))
+    (by rw [h7]; exact Nat.le_refl _) hpc hgh (by rw [hI]; exact hHold) hMissPc hMissEx hOwedPc
+    hOwedEx hLoc hnC hU hL
 
-theorem MI.frame {x x' : Mutex.St} (hi : MI x) (hc : x'.counter = x.counter)
-    (ho : x'.owner = x.owner) (hh : ∀ f, isHolder (x'.pc f) = isHolder (x.pc f))
-    (hw : ∀ f, isWaker (x'.pc f) = isWaker (x.pc f)) : MI x' := by
-  obtain ⟨a1, a2, a3, a4, a5⟩ := hi
-  constructor <;> simp only [hc, ho, hh, hw] <;> assumption
+theorem Inv.noteM {s s' : St} (hi : Inv s) {me : Mutex.Ev} {f : Nat} (ha : mxActor me = A f)
+    (h : stepM s me = some s') : Inv s' := by
+  obtain ⟨x, hx, rfl⟩ := stepM_shape h
+  exact hi.of_stepM_A hx ha
 
-/-- a step that moves `a` between two pcs of the same class and touches neither counter nor owner -/
-theorem MI.move {x : Mutex.St} (hi : MI x) {x' : Mutex.St} {a : Nat} {p : Mutex.Pc}
-    (hpc : x'.pc = upd x.pc a p) (hc : x'.counter = x.counter) (ho : x'.owner = x.owner)
-    (hh : isHolder p = isHolder (x.pc a)) (hw : isWaker p = isWaker (x.pc a)) : MI x' := by
-  apply hi.frame hc ho <;> intro f <;> simp only [hpc, upd] <;> split <;> simp_all
+theorem Inv.callSig {s s' : St} (hi : Inv s) {f : Nat} {hh bc : Bool}
+    (h : callSig s f hh bc = some s') : Inv s' := by
+  have key : s.pc f = .idle ∧ ∃ s1, stepI s (.callLock (A f)) = some s1 ∧
+      s' = { s1 with pc := upd s1.pc f (.lockI bc),
+                     gh := upd s1.gh f { s1.gh f with holds := hh, claimed := 0, popped := 0 } } := by
+    simp only [Cond.callSig] at h
+    by_cases hc : s.pc f = .idle ∧ s.onBehalf f = none ∧
+      (if hh = true then s.m.pc (A f) = .held ∧ s.m.owner = some (A f) else s.m.pc (A f) = .idle)
+    · rw [if_pos hc] at h
+      simp only [Option.map_eq_some_iff] at h
+      obtain ⟨s1, h1, rfl⟩ := h
+      exact ⟨hc.1, s1, h1, rfl⟩
+    · rw [if_neg hc] at h; cases h
+  obtain ⟨hc, s1, h1, rfl⟩ := key
+  · have hc : s.pc f = .idle ∧ True := ⟨hc, trivial⟩
+    obtain ⟨x, hx, rfl⟩ := stepI_shape h1
+    have hi1 := hi.of_stepI (f := f) hx rfl (by rw [hc.1]; rfl)
+    obtain ⟨a1, a2, a3, a4⟩ := hi1.at f (p := .idle) hc.1
+    refine hi1.gmove (f := f) rfl rfl rfl rfl rfl rfl rfl rfl rfl rfl rfl ?_ ?_ ?_ ?_ ?_ ?_ ?_ ?_ ?_
+    all_goals side
 
-theorem MI.step {x x' : Mutex.St} {e : Mutex.Ev} (hi : MI x) (h : Mutex.step x e = some x') :
-    MI x' := by
-  cases e <;> simp only [Mutex.step] at h <;> (repeat' split at h) <;> simp at h <;>
-    (try subst h)
-  all_goals first
-    | (apply hi.move (a := _) (p := _) rfl rfl rfl <;> simp_all [isHolder, isWaker]; done)
-    | skip
-  all_goals sorry
+theorem Inv.retSig {s s' : St} (hi : Inv s) {f : Nat} {bc : Bool}
+    (h : retSig s f bc = some s') : Inv s' := by
+  simp only [Cond.retSig] at h
+  split at h
+  · next hc =>
+    simp only [Option.map_eq_some_iff] at h
+    obtain ⟨s1, h1, rfl⟩ := h
+    obtain ⟨x, hx, rfl⟩ := stepI_shape h1
+    have hi1 := hi.of_stepI (f := f) hx rfl (by rw [hc.1]; rfl)
+    obtain ⟨a1, a2, a3, a4⟩ := hi1.at f (p := .unlockI bc) hc.1
+    refine hi1.pcmove (f := f) rfl rfl rfl rfl rfl rfl rfl rfl rfl rfl rfl ?_ ?_ ?_ ?_ ?_ ?_
+    all_goals side
+  · cases h
+
+/-- what holds at the instant a signaller is granted I -/
+theorem Inv.granted {s : St} (hi : Inv s) {f : Nat} {bc : Bool} {x : Mutex.St}
+    (hpc : s.pc f = .lockI bc) (hx : Mutex.step (syncIn s s.i) (.retLock (A f)) = some x) :
+    MI x ∧ x.pc (A f) = .held ∧ (∀ g, needsI (s.pc g) = false) ∧ s.miss = 0 ∧ s.owed = 0 ∧
+      (s.gh f).claimed = 0 ∧ (s.gh f).popped = 0 := by
+  have hal := hi.claim_alone hx (by rw [hpc]; rfl)
+  refine ⟨hi.mi.sync.step hx, (mx_retLock hx).1, hal, ?_, ?_, ?_⟩
+  · apply Classical.byContradiction; intro h
+    obtain ⟨g, hg⟩ := hi.missEx h
+    have := hal g; rw [hg] at this; cases this
+  · apply Classical.byContradiction; intro h
+    obtain ⟨g, _, _, _, hg⟩ := hi.owedEx h
+    have := hal g; rw [hg] at this; cases this
+  · have := hi.loc f; rw [hpc] at this; simp only [Loc] at this; exact this.1
+
+theorem hal_hold {pc : Nat → Pc} (hal : ∀ g, needsI (pc g) = false) {Q : Nat → Prop} :
+    ∀ g, needsI (pc g) = true → Q g := fun g h => by rw [hal g] at h; cases h
+theorem hal_miss {pc : Nat → Pc} (hal : ∀ g, needsI (pc g) = false) {Q : Prop} :
+    ∀ g, pc g = Pc.sigMiss → Q := fun g h => by have := hal g; rw [h] at this; cases this
+theorem hal_wake {pc : Nat → Pc} (hal : ∀ g, needsI (pc g) = false) {Q : Bool → Nat → WPc → Prop} :
+    ∀ g bc k w, pc g = Pc.wake bc k w → Q bc k w :=
+  fun g bc k w h => by have := hal g; rw [h] at this; cases this
+
+theorem Inv.fsubCount {s s' : St} (hi : Inv s) {f : Nat} {old : Int}
+    (h : step s (.fsubCount f old) = some s') : Inv s' := by
+  simp only [step] at h
+  split at h
+  · next hc =>
+    obtain ⟨hpc, hold, _⟩ := hc
+    simp only [Option.bind_eq_some_iff] at h
+    obtain ⟨s1, h1, h⟩ := h
+    obtain ⟨x, hx, rfl⟩ := stepI_shape h1
+    obtain ⟨hmx, hheld, hal, hmiss, howed, hcl, hpo⟩ := hi.granted hpc hx
+    have hloc := hi.loc f; rw [hpc] at hloc; simp only [Loc] at hloc
+    have hcnt := hi.cnt; have hpops := hi.pops
+    split at h
+    · next hge =>
+      simp at h; subst h
+      refine ⟨hmx, hi.mim, ?_, ?_, ?_, ?_, ?_, hi.hdLe, ?_, ?_, ?_, ?_, ?_⟩
+      · exact upd_forall (P := fun g p => needsI p = true → x.pc (A g) = .held) (hal_hold hal)
+          (fun _ => hheld)
+      · show old - 1 + s.miss = (s.nreg : Int) - ((s.nclaim + 1 : Nat) : Int)
+        push_cast; omega
+      · exact upd_forall (P := fun _ p => p = Pc.sigMiss → s.miss = 1) (hal_miss hal) (by simp)
+      · intro h; exact absurd hmiss h
+      · show s.hd + 1 = s.nclaim + 1; omega
+      · exact upd_forall (P := fun _ p => ∀ bc k w, p = Pc.wake bc k w → 1 = k ∧ (prePop w = true → 1 ≤ k))
+          (hal_wake hal) (by intro bc k w h; simp at h; omega)
+      · intro _; exact ⟨f, _, _, _, upd_same _ _ _⟩
+      · intro n g hg; have := hi.ordReg n g hg
+        simp only [upd]; split
+        · next h => subst h; exact this
+        · exact this
+      · intro w hw; have := hi.dh w hw
+        simp only [upd]; split
+        · next h => subst h; exact this
+        · exact this
+      · refine loc_upd hi.loc ?_
+        simp only [Loc]; simp_all
+    · next hlt =>
+      simp at h; subst h
+      refine ⟨hmx, hi.mim, ?_, ?_, ?_, ?_, hi.pops, hi.hdLe, ?_, ?_, hi.ordReg, hi.dh, ?_⟩
+      · exact upd_forall (P := fun g p => needsI p = true → x.pc (A g) = .held) (hal_hold hal)
+          (fun _ => hheld)
+      · show old - 1 + 1 = (s.nreg : Int) - (s.nclaim : Int)
+        omega
+      · exact upd_forall (P := fun _ p => p = Pc.sigMiss → (1 : Int) = 1) (fun _ _ => rfl) (fun _ => rfl)
+      · intro _; exact ⟨f, upd_same _ _ _⟩
+      · exact upd_forall (P := fun _ p => ∀ bc k w, p = Pc.wake bc k w → s.owed = k ∧ (prePop w = true → 1 ≤ k))
+          (hal_wake hal) (by simp)
+      · intro h; exact absurd howed h
+      · refine loc_upd_pc hi.loc ?_
+        simp only [Loc]; simp_all
+  · cases h
 
 end LibfiberVerif.Cond
